@@ -248,7 +248,7 @@ theorem string_quirks :
 tokens lie in the source one after the other, separated only by white space, each token located at the
 position (`advLoc ⟨1,0⟩ (text before it)`: line 1-based, column 0-based, in runes) of the first character
 of its raw text, whose relation to the token value is `TextOf` (identical text; or the text `unescape`s to
-the value of a String token; or `not`, blanks, `in` for the operator `not in`); the last token is EOF.
+the value of a String token; or `not`, runes that `acceptWord` skips (`cc.wordBlank`), `in` for the operator `not in`); the last token is EOF.
 From the invariants I1–I5 of DESIGN Appendix D (`Good`, `Fresh` in Proofs/LexPos). -/
 theorem token_positions (cc : CharClass) (src : String) (toks : List Token)
     (h : lex cc LexTables.std src = .ok toks) : Laid cc LexTables.std ⟨1, 0⟩ src.toList toks :=
@@ -258,7 +258,7 @@ theorem token_positions (cc : CharClass) (src : String) (toks : List Token)
 theorem token_positions_each (cc : CharClass) (src : String) (toks : List Token)
     (h : lex cc LexTables.std src = .ok toks) :
     ∀ t ∈ toks, t.kind ≠ .eof → ∃ pre raw post, src.toList = pre ++ raw ++ post ∧ raw ≠ [] ∧
-      (∀ c, raw.head? = some c → cc.isSpace c = false) ∧ t.loc = posOf pre ∧ TextOf LexTables.std t raw :=
+      (∀ c, raw.head? = some c → cc.isSpace c = false) ∧ t.loc = posOf pre ∧ TextOf cc LexTables.std t raw :=
   (token_positions cc src toks h).positions
 
 /-- `lex_nonempty`: a successful `lex` ends with EOF, and EOF occurs only there -/
@@ -290,6 +290,17 @@ example : lex CharClass.ascii LexTables.std "a\n  not  in [1..2,\n\t\"é\\n\"]" 
     .ok [⟨.identifier, "a", ⟨1, 0⟩⟩, ⟨.operator, "not in", ⟨2, 2⟩⟩, ⟨.bracket, "[", ⟨2, 10⟩⟩,
       ⟨.number, "1", ⟨2, 11⟩⟩, ⟨.operator, "..", ⟨2, 12⟩⟩, ⟨.number, "2", ⟨2, 14⟩⟩, ⟨.operator, ",", ⟨2, 15⟩⟩,
       ⟨.string, "é\n", ⟨3, 1⟩⟩, ⟨.bracket, "]", ⟨3, 6⟩⟩, ⟨.eof, "", ⟨3, 6⟩⟩] := by decide
+
+/-- the same with the fixed shape of lexer.acceptWord (`notInAnySpace = true`): a line feed between `not` and `in`
+and a bracket right after `in`; the operator is located at `not`, the tokens after it on the next line -/
+example : lex { CharClass.ascii with notInAnySpace := true } LexTables.std "a not\n\tin[b]" =
+    .ok [⟨.identifier, "a", ⟨1, 0⟩⟩, ⟨.operator, "not in", ⟨1, 2⟩⟩, ⟨.bracket, "[", ⟨2, 3⟩⟩,
+      ⟨.identifier, "b", ⟨2, 4⟩⟩, ⟨.bracket, "]", ⟨2, 5⟩⟩, ⟨.eof, "", ⟨2, 5⟩⟩] := by decide
+
+/-- … and with the old shape (`notInAnySpace = false`, the default) the same text is `not`, `in` -/
+example : lex CharClass.ascii LexTables.std "a not\n\tin[b]" =
+    .ok [⟨.identifier, "a", ⟨1, 0⟩⟩, ⟨.operator, "not", ⟨1, 2⟩⟩, ⟨.operator, "in", ⟨2, 1⟩⟩, ⟨.bracket, "[", ⟨2, 3⟩⟩,
+      ⟨.identifier, "b", ⟨2, 4⟩⟩, ⟨.bracket, "]", ⟨2, 5⟩⟩, ⟨.eof, "", ⟨2, 5⟩⟩] := by decide
 
 /-- I5 made visible: after the last token the recorded location is stale by one rune, which only the EOF
 token (placed at `prev`) shows: here EOF is reported at 1:1, the position *of* the last character -/
